@@ -57,11 +57,14 @@ type ExportingProcess struct {
 	templateID      uint16
 	templatesMap    map[uint16]templateValue
 	templateMutex   sync.Mutex
-	sendJSONRecord  bool
-	jsonBufferLen   int
-	wg              sync.WaitGroup
-	isClosed        atomic.Bool
-	stopCh          chan struct{}
+	// sendMutex serializes building and writing of IPFIX messages and protects seqNumber:
+	// the template refresh goroutine sends messages concurrently with the application.
+	sendMutex      sync.Mutex
+	sendJSONRecord bool
+	jsonBufferLen  int
+	wg             sync.WaitGroup
+	isClosed       atomic.Bool
+	stopCh         chan struct{}
 }
 
 type ExporterTLSClientConfig struct {
@@ -318,6 +321,8 @@ func (ep *ExportingProcess) NewTemplateID() uint16 {
 // createAndSendIPFIXMsg takes in a set as input, creates the IPFIX message, and sends it out.
 // TODO: This method will change when we support sending multiple sets.
 func (ep *ExportingProcess) createAndSendIPFIXMsg(set entities.Set) (int, error) {
+	ep.sendMutex.Lock()
+	defer ep.sendMutex.Unlock()
 	if set.GetSetType() == entities.Data {
 		ep.seqNumber = ep.seqNumber + set.GetNumberOfRecords()
 	}
